@@ -1049,6 +1049,13 @@ func Observe1[A, R any](name string, f func(A) R, a A) R {
 	return r
 }
 
+// ObserveNote reports a call without a result (and its arguments) to the harness hook, after the call was made.
+func ObserveNote(name string, args ...any) {
+	if h := ObserveHook; h != nil && cur.Load() != nil {
+		h(name, args, nil)
+	}
+}
+
 func Observe2[A, B, R any](name string, f func(A, B) R, a A, b B) R {
 	r := f(a, b)
 	if h := ObserveHook; h != nil && cur.Load() != nil {
